@@ -592,12 +592,184 @@ func GuardTable(c *core.Ctx, rule, pkgPath, typ, mu string, guarded []string) (i
 			return true
 		})
 	}
+	// A guarded field that is only ever assigned in a constructor (on an object
+	// that has not escaped yet) never changes: reading its value is not a race.
+	// What the lock protects is what is done THROUGH it. A method value x.F.m
+	// bound outside the lock is therefore judged where it is called: as the
+	// argument of a package function whose parameter is only called, or bound
+	// once to a local that is only called; anything else outside the lock is
+	// UNDECIDED (the rule cannot see the use). A direct call x.F.m() outside
+	// the lock stays a violation.
+	seenPtr := map[types.Object]bool{}
+	immutable := map[string]bool{}
+	for f := range isGuarded {
+		immutable[f] = true
+	}
+	for _, b := range bodies {
+		var root ast.Node = b.Decl.Body
+		if b.Lit != nil {
+			root = b.Lit
+		}
+		core.Inspect(root, func(n ast.Node) bool {
+			switch x := n.(type) {
+			case *ast.AssignStmt:
+				for _, l := range x.Lhs {
+					if se, ok := ast.Unparen(l).(*ast.SelectorExpr); ok && isGuarded[se.Sel.Name] && core.IsFieldNamed(info, se, typ, se.Sel.Name) {
+						if !localFresh(info, root, se.X) {
+							immutable[se.Sel.Name] = false
+						}
+					}
+				}
+			case *ast.IncDecStmt:
+				if se, ok := ast.Unparen(x.X).(*ast.SelectorExpr); ok && isGuarded[se.Sel.Name] && core.IsFieldNamed(info, se, typ, se.Sel.Name) {
+					immutable[se.Sel.Name] = false
+				}
+			case *ast.UnaryExpr:
+				if se, ok := ast.Unparen(x.X).(*ast.SelectorExpr); ok && x.Op == token.AND && isGuarded[se.Sel.Name] && core.IsFieldNamed(info, se, typ, se.Sel.Name) {
+					immutable[se.Sel.Name] = false // may be written through the pointer
+				}
+			}
+			return true
+		})
+	}
+	methodValue := map[*ast.SelectorExpr]*ast.SelectorExpr{} // x.F -> x.F.m used as a value
+	plainRead := map[*ast.SelectorExpr]bool{}                // x.F whose value is copied (not the receiver of a call)
+	for _, b := range bodies {
+		if b.Lit != nil {
+			continue
+		}
+		callFun := map[ast.Expr]bool{}
+		parent := map[*ast.SelectorExpr]*ast.SelectorExpr{}
+		ast.Inspect(b.Decl.Body, func(n ast.Node) bool {
+			switch x := n.(type) {
+			case *ast.CallExpr:
+				callFun[ast.Unparen(x.Fun)] = true
+			case *ast.SelectorExpr:
+				if in, ok := ast.Unparen(x.X).(*ast.SelectorExpr); ok {
+					parent[in] = x
+				}
+			}
+			return true
+		})
+		ast.Inspect(b.Decl.Body, func(n ast.Node) bool {
+			se, ok := n.(*ast.SelectorExpr)
+			if !ok || !isGuarded[se.Sel.Name] || !immutable[se.Sel.Name] || !core.IsFieldNamed(info, se, typ, se.Sel.Name) {
+				return true
+			}
+			if p := parent[se]; p != nil {
+				if sel, ok := info.Selections[p]; ok && sel.Kind() == types.MethodVal && !callFun[ast.Expr(p)] {
+					methodValue[se] = p
+				}
+			} else {
+				plainRead[se] = true
+			}
+			return true
+		})
+	}
+	// resolve method values to their call sites
+	onlyCalled := func(fd *ast.FuncDecl, obj types.Object) ([]*ast.CallExpr, bool) {
+		var calls []*ast.CallExpr
+		called := map[*ast.Ident]*ast.CallExpr{}
+		ast.Inspect(fd.Body, func(m ast.Node) bool {
+			if c, ok := m.(*ast.CallExpr); ok {
+				if id, ok := ast.Unparen(c.Fun).(*ast.Ident); ok {
+					called[id] = c
+				}
+			}
+			return true
+		})
+		ok, inLit := true, 0
+		var walk func(m ast.Node) bool
+		walk = func(m ast.Node) bool {
+			switch x := m.(type) {
+			case *ast.FuncLit:
+				inLit++
+				ast.Inspect(x.Body, walk)
+				inLit--
+				return false
+			case *ast.Ident:
+				if info.Uses[x] == obj {
+					if c := called[x]; c != nil && inLit == 0 {
+						calls = append(calls, c)
+					} else {
+						ok = false
+					}
+				}
+			}
+			return true
+		}
+		ast.Inspect(fd.Body, walk)
+		return calls, ok && len(calls) > 0
+	}
+	for _, b := range bodies {
+		if b.Lit != nil {
+			continue
+		}
+		ast.Inspect(b.Decl.Body, func(n ast.Node) bool {
+			switch x := n.(type) {
+			case *ast.CallExpr:
+				f := core.CalleeFunc(info, x)
+				if f == nil || x.Ellipsis.IsValid() {
+					return true
+				}
+				fd := declBody[f.Origin()]
+				if fd == nil {
+					return true
+				}
+				var params []types.Object
+				for _, fl := range fd.Type.Params.List {
+					for _, nm := range fl.Names {
+						params = append(params, info.Defs[nm])
+					}
+				}
+				for k, a := range x.Args {
+					p, ok := ast.Unparen(a).(*ast.SelectorExpr)
+					if !ok || k >= len(params) || params[k] == nil {
+						continue
+					}
+					in, ok := ast.Unparen(p.X).(*ast.SelectorExpr)
+					if !ok || methodValue[in] != p {
+						continue
+					}
+					if calls, ok := onlyCalled(fd, params[k]); ok {
+						exempt[in] = true
+						for _, c := range calls {
+							derefs[fd] = append(derefs[fd], access{pos: c.Pos(), field: in.Sel.Name, node: c})
+						}
+					}
+				}
+			case *ast.Ident:
+				if info.Uses[x] == nil || seenPtr[info.Uses[x]] {
+					return true
+				}
+				d := pat.DefOf(info, x)
+				if d == nil {
+					return true
+				}
+				p, ok := ast.Unparen(d).(*ast.SelectorExpr)
+				if !ok {
+					return true
+				}
+				in, ok := ast.Unparen(p.X).(*ast.SelectorExpr)
+				if !ok || methodValue[in] != p {
+					return true
+				}
+				seenPtr[info.Uses[x]] = true
+				if calls, ok := onlyCalled(b.Decl, info.Uses[x]); ok {
+					exempt[in] = true
+					for _, c := range calls {
+						derefs[b.Decl] = append(derefs[b.Decl], access{pos: c.Pos(), field: in.Sel.Name, node: c})
+					}
+				}
+			}
+			return true
+		})
+	}
 	// `slot := &x.f` bound once to a local of the same function whose every use
 	// is `*slot`: the accesses are the dereferences. Any other `&x.f` is an
 	// address computation, not an access: it is fine under the lock; outside
 	// the lock the rule cannot see where the pointer is used (UNDECIDED).
 	addrOf := map[*ast.SelectorExpr]bool{}
-	seenPtr := map[types.Object]bool{}
 	for _, b := range bodies {
 		if b.Lit != nil {
 			continue
@@ -721,8 +893,25 @@ func GuardTable(c *core.Ctx, rule, pkgPath, typ, mu string, guarded []string) (i
 			seenField[a.field]++
 			perField[a.field]++
 			key := fmt.Sprintf("%s/%s#%d", b.Name, a.field, perField[a.field])
-			if a.sel != nil && addrOf[a.sel] && !held[a.node] {
-				c.Undecidedf(rule, key, a.pos, "the address of %s.%s is taken outside %s.%s and the rule cannot see where the pointer is dereferenced", typ, a.field, typ, mu)
+			if a.sel != nil && !held[a.node] && (methodValue[a.sel] != nil || plainRead[a.sel] || addrOf[a.sel]) {
+				// the value (or the address) is taken outside the lock and goes somewhere the
+				// syntactic analysis cannot follow: ask the path engine whether the lock is
+				// held wherever the enclosing function touches the field through it
+				v, w, why := -1, []string(nil), "no declared function"
+				if fo, _ := info.Defs[b.Decl.Name].(*types.Func); fo != nil && b.Lit == nil {
+					if fn := c.FnOf(fo); fn != nil {
+						v, w, why = HeldOnTraces(c, fn, ls.Entry[bi], mu, a.field, immutable[a.field] && !addrOf[a.sel])
+					}
+				}
+				msg := fmt.Sprintf("%s.%s is reached through a value taken outside %s.%s; every use of it must execute with the lock held", typ, a.field, typ, mu)
+				switch v {
+				case 1:
+					c.Okf(rule, key, a.pos, "%s", msg)
+				case 0:
+					c.Check(rule, key, a.pos, false, msg, w...)
+				default:
+					c.Undecidedf(rule, key, a.pos, "%s: %s", msg, why)
+				}
 				continue
 			}
 			c.Check(rule, key, a.pos, held[a.node],
